@@ -671,8 +671,8 @@ TRUSTED_BASE = ["z3 5.1 (NRA for the sqrt(dt) scaling)", "pyvc interpreter + num
 class SimulatorBattery:
     """bounded (native): real MarkovChainProcess and CouplingMarkovChain (HEM, uniform grids, levels 1-2) with and without a
     step cap, 40 paths each: times start at 0, increase strictly and end at the maturity, every component starts at 0,
-    fine and coarse components have one value per time, and with a step cap every step except the final one (known
-    finding) is at most epsilon."""
+    fine and coarse components have one value per time, and with a step cap EVERY step (the last one up to the maturity and
+    the only one of a path without jump included) is at most epsilon -- also for the Levy-copula chain and its coupling."""
     name = "bounded:simulator-battery"
     tier = "quick"
 
@@ -705,8 +705,8 @@ class SimulatorBattery:
             if eps is not None and t.size > 2 and jp.shape[-1] == t.size and np.any(jp[:, -1] != jp[:, -2]):
                 viol.setdefault("last", {"obligation": f"{self.name}::every-component-keeps-its-own-last-jump-value-to-maturity", "bounded": self.name,
                                          "witness": {**info, "jump_values_before_maturity": jp[:, -2].tolist(), "jump_values_at_maturity": jp[:, -1].tolist()}})
-            if eps is not None and t.size > 2 and np.any(np.diff(t)[:-1] > eps * (1 + 1e-9)):
-                viol.setdefault("cap", {"obligation": f"{self.name}::steps-before-the-final-one-at-most-epsilon", "bounded": self.name, "witness": {**info, "largest_inner_step": float(np.diff(t)[:-1].max())}})
+            if eps is not None and np.any(np.diff(t) > eps * (1 + 1e-9)):
+                viol.setdefault("cap", {"obligation": f"{self.name}::every-step-at-most-epsilon", "bounded": self.name, "witness": {**info, "largest_step": float(np.diff(t).max())}})
         with warnings.catch_warnings():
             warnings.simplefilter("ignore")
             np.random.seed(1234 + seed)
@@ -726,6 +726,30 @@ class SimulatorBattery:
                     for _ in range(40):
                         ev += 1
                         audit(f"coupling level {level}", cp.simulate_one_path_with_coupling(), eps)
+            # Levy-copula chain and its coupling with a step cap (low intensity: paths without any jump are frequent)
+            try:
+                from rpylib.process.markovchain.markovchainlevycopula import MarkovChainLevyCopula
+                from rpylib.process.coupling.couplinglevycopula import CouplingProcessLevyCopula
+                cm = battery.copula_model(2, "clayton")
+                pc = MarkovChainLevyCopula(levy_copula_model=cm, grid=CTMCUniformGrid(h=0.1, model=cm), method=SamplingMethod.INVERSION)
+                pc.initialisation(prod, max_step_epsilon=0.1)
+                pc.pre_computation(40, prod)
+                for _ in range(40):
+                    ev += 1
+                    audit("MCLevyCopulaSimulationMaximumStep", pc.simulate_one_path(), 0.1)
+                cc = CouplingProcessLevyCopula(levy_copula_model=cm, grid=CTMCUniformGrid(h=0.2, model=cm), method=SamplingMethod.INVERSION)
+                cc.initialisation(prod)
+                cc.next_level(40, [type("PM", (), {"update": lambda s, x: None, "deterministic_path": None})()], prod, max_step_epsilon=0.1)
+                cc.pre_computation(40, prod)
+                for _ in range(40):
+                    ev += 1
+                    pth = cc.simulate_one_path_with_coupling()
+                    t_ = np.asarray(pth.jump_times, float)
+                    if t_[0] != 0.0 or abs(t_[-1] - T) > 1e-12 or np.any(np.diff(t_) <= 0) or np.any(np.diff(t_) > 0.1 * (1 + 1e-9)):
+                        viol.setdefault("ccap", {"obligation": f"{self.name}::every-step-at-most-epsilon", "bounded": self.name,
+                                                 "witness": {"simulator": "copula coupling level 1", "epsilon": 0.1, "times": t_[:12].tolist(), "largest_step": float(np.diff(t_).max())}})
+            except Exception as e:
+                viol.setdefault("copula", {"obligation": f"{self.name}::copula-simulators-run-with-a-step-cap", "bounded": self.name, "witness": {"exception": f"{type(e).__name__}: {str(e)[:160]}"}})
             # every state sampler the factory accepts must drive the coupled simulator (slices of several jumps included)
             for meth in (SamplingMethod.ALIAS, SamplingMethod.TABLE, SamplingMethod.BINARYSEARCHTREE, SamplingMethod.HUFFMANNTREE, SamplingMethod.BINARYSEARCHTREEADAPTED1D):
                 ev += 1
